@@ -42,6 +42,8 @@ func BaseDocs() []*Doc {
 		{Ops: []*Op{{Type: "query", Anon: true, Sels: []*Sel{F("a", F("kids", F("id"))), F("a", F("kids", F("s"), F("kid", F("id")))), In("", F("a", F("kids", F("i")))),
 			F("as", F("kids", F("id"))), F("as", F("kids", F("s")), F("id")), Sp("FQ")}}},
 			Frags: []*Frag{{Name: "FQ", Cond: "Query", Sels: []*Sel{F("a", F("kids", F("name")), F("peers", F("id"))), F("as", F("i"))}}}},
+		// B13 a struct value in a struct field and a slice of struct values, of a type bound as a value (methods with value receivers)
+		Q(F("val", F("vid"), F("vm")), F("vals", F("vid"), F("vm")), F("as", F("id"))),
 		// B12 enum and string arguments that a reflected method takes as Go string / named string parameters
 		Q(F("paint").WithArgs(Arg{"c", EnumLit("RED")}, Arg{"t", "matt"}), F("a", Al("p", F("paint").WithArgs(Arg{"c", EnumLit("BLUE")})), Al("q", F("paint").WithArgs(Arg{"t", "gloss"})))),
 	}
